@@ -11,8 +11,12 @@ import (
 
 // Mailbox names that are canonical under the naming mode (lower case, no +extension), with
 // characters that matter to URLs: & = ? # % ; , ! ' * ~ $ and — the open finding — '/'.
-var poolLocal = []string{"alpha", "a.b", "x_y", "a&b", "a=b", "q?x", "h#x", "p%41", "s;t", "e!f'g*h", "t~u$v", "w`x{y|z}", "c^d", "s/t", "r/k0"}
-var poolFull = []string{"alpha@example.com", "a.b@mail.example.org", "a&b@x.example", "q?x@example.com", "p%41@example.com", "s/t@example.com"}
+var poolLocal = []string{"alpha", "a.b", "x_y", "a&b", "a=b", "q?x", "h#x", "p%41", "s;t", "e!f'g*h", "t~u$v", "w`x{y|z}", "c^d", "s/t", "r/k0",
+	// lengths spread up to and just beyond the 64 octets a local part may have
+	"lllllllllllllllllllllllllllllllllllllllllllllllllllllllllllllll", "mmmmmmmmmmmmmmmmmmmmmmmmmmmmmmmmmmmmmmmmmmmmmmmmmmmmmmmmmmmmmmmm", "nnnnnnnnnnnnnnnnnnnnnnnnnnnnnnnnnnnnnnnnnnnnnnnnnnnnnnnnnnnnnnnnn", "abcdefghijklmnopqrstuvwxyz0123456789.abcdefghijklmnopq"}
+var poolFull = []string{"alpha@example.com", "a.b@mail.example.org", "a&b@x.example", "q?x@example.com", "p%41@example.com", "s/t@example.com",
+	// addresses of 65, 100 and 140 octets (local part <= 64, the rest is domain)
+	"kkkkkkkkkkkkkkkkkkkkkkkkkkkkkkkkkkkkkkkkkkkkkkkkkkkkk@example.com", "jjjjjjjjjjjjjjjjjjjjjjjjjjjjjjjjjjjjjjjjjjjjjjjjjjjjjjjjjjjj@ddddddddddddddddddddddddddd.example.com", "iiiiiiiiiiiiiiiiiiiiiiiiiiiiiiiiiiiiiiiiiiiiiiiiiiiiiiiiiiiiiiii@eeeeeeeeeeeeeeeeeeeeeeeeeeeeee.fffffffffffffffffffffffffffffff.example.org"}
 
 type hgen struct {
 	g      *vh.Gen
@@ -110,7 +114,7 @@ func (h *hgen) add() {
 	mb := h.canon()
 	tag := h.g.Intn(400)
 	if h.shapes && h.g.Chance(0.3) {
-		tag = 400 + h.g.Intn(56) // empty / long metadata (shapeOf)
+		tag = 400 + h.g.Intn(64) // empty / long metadata, display names (shapeOf)
 	}
 	date := 1700000000000 + int64(h.g.Intn(100000000))
 	h.ops = append(h.ops, fmt.Sprintf("a:%s:%d:%d:%d", vh.HS(mb), date, tag, len(buildRaw(tag))))
@@ -319,9 +323,11 @@ func genMeta(g *vh.Gen) {
 		n := 3 + g.Intn(5)
 		for j := 0; j < n; j++ {
 			mb := mbs[g.Intn(2)]
-			tag := 400 + g.Intn(56)
+			tag := 400 + g.Intn(64)
 			if g.Chance(0.25) {
 				tag = g.Intn(400)
+			} else if g.Chance(0.3) {
+				tag = []int{412, 413, 414, 415, 444, 445, 446, 447}[g.Intn(8)] // display names over one shared bare address
 			}
 			date := 1700000000000 + int64(g.Intn(100000000))
 			ops = append(ops, fmt.Sprintf("a:%s:%d:%d:%d", vh.HS(mb), date, tag, len(buildRaw(tag))))
